@@ -47,7 +47,15 @@ Step ==
              THEN Fail("C06.resumed_past_cancellation")
         ELSE IF a \in Ids /\ tsk[a].pre /\ e.e \in {"b", "r", "x", "p", "u", "end"} THEN Fail("C06.ran_after_precancel")
         ELSE
-        LET tk0 == IF a \in Ids /\ tsk[a].s # 0 THEN [tsk EXCEPT ![a].started = TRUE] ELSE tsk
+        LET \* a scope block that has been left has no child left: children that never started were closed silently
+            \* (no code of theirs ran, so there is no event of their own); a later cancel() finds them finished
+            left == IF e.e \in {"r", "x", "u"} /\ F(e, "blk", "") = "scope" /\ op \in {"leave", "body"} THEN e.id ELSE 0
+            tkc == IF left = 0 THEN tsk
+                   ELSE [k \in Ids |-> IF tsk[k].s = left /\ ~tsk[k].ended /\ ~tsk[k].started /\ ~tsk[k].pre
+                                        THEN [tsk[k] EXCEPT !.ended = TRUE, !.how = "closed",
+                                                            !.res = IF @ = <<>> THEN <<"tclosed", k>> ELSE @]
+                                        ELSE tsk[k]]
+            tk0 == IF a \in Ids /\ tsk[a].s # 0 THEN [tkc EXCEPT ![a].started = TRUE] ELSE tkc
             \* asleep: the date until which the task sleeps (it cannot run before that date on its own)
             tk1 == IF a \in Ids /\ tsk[a].s # 0 /\ e.e = "b" /\ op = "sleep" THEN [tk0 EXCEPT ![a].asleep = t + e.d]
                    ELSE IF a \in Ids /\ tsk[a].s # 0 /\ e.e \in {"r", "x", "u"} /\ op = "sleep" THEN [tk0 EXCEPT ![a].asleep = 0]
